@@ -42,7 +42,7 @@ func genC14(maxClients int, long bool) func(t *rapid.T) C14Batch {
 		n := rapid.IntRange(4, maxClients).Draw(t, "nclients")
 		for i := 0; i < n; i++ {
 			b.Clients = append(b.Clients, C14Client{
-				Script: rapid.SampledFrom([]string{"plain", "plain", "dns-single", "dns-single", "dns-multi", "mixed", "dns-then-plain", "plain-reply53", "recreate", "unsendable"}).Draw(t, "script"),
+				Script: rapid.SampledFrom([]string{"plain", "plain", "dns-single", "dns-single", "dns-multi", "mixed", "dns-then-plain", "plain-reply53", "recreate", "unsendable", "otherkey"}).Draw(t, "script"),
 				Sends:  rapid.IntRange(1, 4).Draw(t, "sends"), GapMs: rapid.SampledFrom([]int{0, 10, 60, 120}).Draw(t, "gap"), Delay: rapid.SampledFrom([]int{0, 0, 30}).Draw(t, "delay")})
 		}
 		return b
@@ -56,6 +56,7 @@ type c14Env struct {
 	dns     *kit.UDPPeer // 127.0.0.53:53
 	dns2    *kit.UDPPeer // another port-53 address (stranger)
 	key     *kit.Key
+	key2    *kit.Key // another configured key (script otherkey)
 	tau     time.Duration
 	dnsMu   sync.Mutex
 	fromDNS map[string]chan kit.Datagram // demux of datagrams arriving at the DNS socket by payload tag
@@ -108,10 +109,11 @@ func runC14(b C14Batch, info *kit.Info) *kit.Finding {
 		return nil
 	}
 	ks := kit.KeySpec{ID: "k", Cipher: kit.Chacha, Secret: "nat-secret"}
-	e := &c14Env{met: &kit.RecService{}, key: ks.Key(), tau: time.Duration(b.TimeoutMs) * time.Millisecond}
+	ks2 := kit.KeySpec{ID: "k2", Cipher: kit.AES256, Secret: "other-nat-secret"}
+	e := &c14Env{met: &kit.RecService{}, key: ks.Key(), key2: ks2.Key(), tau: time.Duration(b.TimeoutMs) * time.Millisecond}
 	baseG := len(kit.RepoGoroutines())
 	baseS := kit.OpenSockets()
-	ph := service.NewPacketHandler(e.tau, kit.NewCipherList([]kit.KeySpec{ks}), e.met, nil)
+	ph := service.NewPacketHandler(e.tau, kit.NewCipherList([]kit.KeySpec{ks, ks2}), e.met, nil)
 	ph.SetTargetIPValidator(kit.PermitAll)
 	var err error
 	if e.front, err = kit.ServeUDP("127.0.0.1", ph); err != nil {
@@ -285,14 +287,23 @@ func c14Client(e *c14Env, b C14Batch, i int, spec C14Client, tgtMux, dnsMux *tag
 	guard := e.tau * 35 / 100
 
 	switch spec.Script {
-	case "plain", "recreate":
+	case "plain", "recreate", "otherkey":
+		var r *kit.RecUDPAssoc
 		for k := 0; k < spec.Sends; k++ {
 			if f := sendPlain(k); f != nil {
 				return f
 			}
+			if r == nil {
+				r = assocOf()
+			}
+			if spec.Script == "otherkey" {
+				// a datagram from the same client address under another configured key: whatever the server makes
+				// of it, the association's promises stand and everything is reclaimed in the end
+				plain := append(kit.SocksAddr(tgtAddr.IP.String(), tgtAddr.Port, false), tag("other", k)...)
+				cl.Send(kit.PackUDP(e.key2, kit.DetBytes(seed+500+int64(k), e.key2.SaltSize()), plain), &net.UDPAddr{IP: net.IPv4(127, 0, 0, 1), Port: e.front.Addr.Port})
+			}
 			gap()
 		}
-		r := assocOf()
 		// still usable shortly before last send + timeout (sound: lastPlain was taken before the send)
 		if wait := time.Until(lastPlain.Add(e.tau - guard)); wait > 0 {
 			time.Sleep(wait)
